@@ -57,7 +57,7 @@ def res_xml(name, includes, broken=False):
                 name, i, inc_[0] + ("#" + inc_[1] if inc_[1] else "")))
     parts.append("<section><name>%s_main</name><type>%s_type</type><definition>def of %s</definition>"
                  "<property><name>%s_p</name><value>[1,2]</value><type>int</type></property>"
-                 "<section><name>%s_sub</name><type>sub</type><property><name>deep</name><value>x</value><type>string</type>"
+                 "<section><name>%s_sub</name><type>Sub/Detail</type><property><name>deep</name><value>x</value><type>string</type>"
                  "</property></section>%s</section>" % ((name,) * 5 + (inner,)))
     for i, inc_ in enumerate(includes):
         if len(inc_) > 2:
